@@ -190,3 +190,21 @@ def bits(value, width):
 
 def unbits(bs):
     return sum((b & 1) << k for k, b in enumerate(bs))
+
+
+def poke_map(mm, k=0):
+    """Read-only queries of a MemoryMap that a user (or an earlier elaboration) may make at ANY time - before the
+    map is complete, before it is frozen - some of them abandoned after k % 3 items.  None of them may change what
+    the map, or hardware generated from it later, does.  (They are not steps of the specification: a query is a
+    stuttering step.)"""
+    try:
+        for q in (mm.all_resources, mm.windows, mm.window_patterns, mm.resources):
+            it = iter(q())
+            for _ in range(k % 3):
+                next(it, None)
+            del it
+        if k % 2:
+            list(mm.windows())
+            list(mm.window_patterns())
+    except Exception:
+        pass
